@@ -19,6 +19,38 @@ def sh(cmd, cwd, env=None, timeout=3600):
     p = subprocess.run(cmd, shell=True, cwd=cwd, env=env or ENV, capture_output=True, text=True, timeout=timeout)
     return p.returncode, p.stdout + p.stderr
 
+DEV = os.environ.get("SEEDED_DEV") == "1"
+
+class Applied:
+    """The tree a change is evaluated in: /repo itself (patch applied, undone
+    afterwards) or, with SEEDED_DEV=1 while something else is using /repo, a
+    scratch worktree that the driver is pointed at through VERIF_DEV_REPO."""
+    def __init__(self, patch, mid):
+        self.patch, self.wt = patch, "/tmp/seedrun-" + mid
+        self.env = dict(os.environ)
+        self.check = "./bin/check"
+    def __enter__(self):
+        if DEV:
+            sh(f"git worktree remove --force {self.wt}", "/repo")
+            rc, out = sh(f"git worktree add -q --detach {self.wt} HEAD", "/repo"); assert rc == 0, out
+            rc, out = sh(f"git apply {self.patch}", self.wt)
+            self.env["VERIF_DEV_REPO"] = self.wt
+            self.check = "./bin/check-dev"
+        else:
+            rc, out = sh("git status --short", "/repo"); assert out.strip() == "", "/repo not clean: " + out
+            rc, out = sh(f"git apply {self.patch}", "/repo")
+        self.rc, self.out = rc, out
+        return self
+    def run(self, cmd):
+        return sh(cmd.replace("./bin/check", self.check, 1), "/verif", env=self.env)
+    def __exit__(self, *a):
+        if DEV:
+            sh(f"git worktree remove --force {self.wt}", "/repo")
+            sh("find /verif/.cache/dev-replays -name '*.json' -delete", "/verif")
+        else:
+            sh("git checkout -- .", "/repo")
+            sh("find /verif/replays -name '*.json' -delete", "/verif")
+
 def rerun(ids):
     """Re-run the recorded checks against every stored change (applied to /repo, then undone)."""
     base = "/verif/seeded"
@@ -31,23 +63,19 @@ def rerun(ids):
         if not os.path.exists(mp):
             continue
         meta = json.load(open(mp))
-        rc, out = sh("git status --short", "/repo"); assert out.strip() == "", "/repo not clean: " + out
-        rc, out = sh(f"git apply {os.path.join(d, 'patch.diff')}", "/repo")
-        if rc != 0:
-            print(mid, "PATCH DOES NOT APPLY ANY MORE:", out[:300]); summary.append((mid, "n/a")); continue
         det = {}
-        try:
+        with Applied(os.path.join(d, 'patch.diff'), mid) as ap:
+            if ap.rc != 0:
+                print(mid, "PATCH DOES NOT APPLY ANY MORE:", ap.out[:300]); summary.append((mid, "n/a")); continue
             for cmd in meta["ran"]:
                 c = cmd.split()[1]
                 t0 = time.time()
-                rc, out = sh(cmd, "/verif", env=dict(os.environ))
+                rc, out = ap.run(cmd)
                 viol = [l for l in out.splitlines() if l.startswith("VIOLATION")]
                 cls = [l for l in out.splitlines() if l.startswith("failing run:") or l.startswith("probe ")]
                 det[c] = {"exit": rc, "detected": rc == 1 and bool(viol), "first": (cls[0] if cls else ""), "wall_s": round(time.time() - t0, 1)}
-        finally:
-            sh("git checkout -- .", "/repo")
-            sh("find /verif/replays -name '*.json' -delete", "/verif")
         meta["detection"] = det
+        meta["evaluated_in"] = "scratch worktree (VERIF_DEV_REPO)" if DEV else "/repo with the patch applied, then restored"
         meta["detected_by"] = sorted(c for c, v in det.items() if v["detected"])
         meta["rerun_at_repo_commit"] = subprocess.check_output(["git", "-C", "/repo", "rev-parse", "--short", "HEAD"], text=True).strip()
         json.dump(meta, open(mp, "w"), indent=1)
@@ -86,21 +114,18 @@ def main():
     if not ok:
         print("NOT CONFIRMED"); sys.exit(1)
     # run our checks against it
-    rc, out = sh("git status --short", "/repo"); assert out.strip() == "", "/repo not clean: " + out
     detections = {}
-    try:
-        rc, out = sh(f"git apply {patch}", "/repo"); assert rc == 0, out
+    with Applied(patch, mid) as ap:
+        assert ap.rc == 0, ap.out
         for c in checks:
             t0 = time.time()
-            rc, out = sh(f"./bin/check {c} quick", "/verif", env=dict(os.environ))
+            rc, out = ap.run(f"./bin/check {c} quick")
             viol = [l for l in out.splitlines() if l.startswith("VIOLATION")]
-            cls = [l for l in out.splitlines() if l.startswith("failing run:")]
+            cls = [l for l in out.splitlines() if l.startswith("failing run:") or l.startswith("probe ")]
             detections[c] = {"exit": rc, "detected": rc == 1 and bool(viol), "first": (cls[0] if cls else ""), "wall_s": round(time.time() - t0, 1)}
             print(c, detections[c])
-            tail = out[-1500:]
-    finally:
-        sh("git checkout -- .", "/repo")
-        sh("find /verif/replays -name '*.json' -delete", "/verif")
+            if not detections[c]["detected"]:
+                print(out[-800:])
     dst = os.path.join("/verif/seeded", mid)
     os.makedirs(dst, exist_ok=True)
     shutil.copy(patch, os.path.join(dst, "patch.diff"))
@@ -111,6 +136,7 @@ def main():
     meta = {"breaks_property": prop, "id": mid, "confirmation": res,
             "demo": {"file": os.path.basename(dsrc), "copy_to": ddst, "command": democmd, "failure_tail": demo_fail_tail},
             "ran": [f"./bin/check {c} quick" for c in checks], "detection": detections,
+            "evaluated_in": "scratch worktree (VERIF_DEV_REPO)" if DEV else "/repo with the patch applied, then restored",
             "needs_to_manifest": open(os.path.join(mdir, "notes.md")).read()[:1500] if os.path.exists(os.path.join(mdir, "notes.md")) else ""}
     json.dump(meta, open(os.path.join(dst, "meta.json"), "w"), indent=1)
     print("filed under", dst)
